@@ -1,6 +1,7 @@
 package rules
 
 import (
+	"go/types"
 	"fmt"
 	"go/token"
 	"strings"
@@ -303,4 +304,76 @@ func c03(r *engine.Report, p *engine.Program) {
 	}
 	// R6 streams are cancelled only by 'service unknown' about their own peer
 	monitorUnreachableRule(r, p, "R6-no-spurious-cancel")
+	streamTimingRules(r, p)
+}
+
+// streamTimingRules (C03 R8): receptor adds no time limits of its own under a stream. quic-go treats
+// an error from PacketConn.WriteTo as fatal for the connection, and a read deadline left on the QUIC
+// stream fails every later Read; link delay below the idle timeout must not end a stream.
+//  (a) the hand-off of a datagram to the next hop's writer (forwardMessage) waits only on the send
+//      and on context cancellation — no timer arm;
+//  (b) deadlines on a QUIC stream are set only by Conn's own Set*Deadline methods, i.e. by the
+//      application that owns the stream.
+func streamTimingRules(r *engine.Report, p *engine.Program) {
+	fm := p.Func("(*netceptor.Netceptor).forwardMessage")
+	if fm == nil {
+		r.Broken("forwardMessage not found")
+		return
+	}
+	nSel := 0
+	var bad []string
+	for _, b := range fm.Blocks {
+		for _, in := range b.Instrs {
+			sel, ok := in.(*ssa.Select)
+			if !ok {
+				continue
+			}
+			nSel++
+			for _, st := range sel.States {
+				if st.Dir != types.RecvOnly {
+					continue
+				}
+				c, isCall := engine.Unwrap(st.Chan).(*ssa.Call)
+				if isCall && c.Common().IsInvoke() && c.Common().Method.Name() == "Done" {
+					continue
+				}
+				bad = append(bad, "receive on "+st.Chan.String()+" at "+p.Pos(sel.Pos()))
+			}
+			if !sel.Blocking {
+				bad = append(bad, "non-blocking select (default arm) at "+p.Pos(sel.Pos()))
+			}
+		}
+	}
+	r.Check("R8-no-own-timeouts", "forwardMessage: the hand-off to the next hop waits only on the send and on context cancellation", fm.Pos(), len(bad) == 0 && nSel > 0,
+		fmt.Sprintf("%d select(s); every receive arm is a context Done(): a slow link delays datagrams, it does not turn them into write errors (which quic-go treats as fatal for the stream)", nSel),
+		"the hand-off has a timer or other arm ("+strings.Join(bad, "; ")+"): a link that stalls for that long makes WriteTo fail, and quic-go ends the stream although nothing was lost and the idle timeout is far away")
+	// (b) who sets deadlines on QUIC streams
+	allowed := map[string]bool{"(*netceptor.Conn).SetDeadline": true, "(*netceptor.Conn).SetReadDeadline": true, "(*netceptor.Conn).SetWriteDeadline": true}
+	var sites, extra []string
+	p.AllInstrs(func(fn *ssa.Function, in ssa.Instruction) {
+		if engine.IsMock(fn) || !inPkg(fn, "netceptor") {
+			return
+		}
+		ci, ok := in.(ssa.CallInstruction)
+		if !ok || !ci.Common().IsInvoke() {
+			return
+		}
+		switch ci.Common().Method.Name() {
+		case "SetDeadline", "SetReadDeadline", "SetWriteDeadline":
+		default:
+			return
+		}
+		t := ci.Common().Value.Type().String()
+		if !strings.Contains(t, "quic-go") && !strings.HasSuffix(t, ".Stream") {
+			return
+		}
+		name := engine.FuncName(engine.Outermost(fn))
+		sites = append(sites, name)
+		if !allowed[name] {
+			extra = append(extra, name+" at "+p.Pos(in.Pos()))
+		}
+	})
+	r.Check("R8-no-own-timeouts", "QUIC stream deadlines are set only through Conn.Set*Deadline", token.NoPos, len(extra) == 0 && len(sites) == 3,
+		"the three delegating methods of Conn are the only callers: receptor itself never leaves a deadline on a stream it hands to the application",
+		"a deadline is set on a QUIC stream in "+strings.Join(extra, ", ")+": unless cleared it fails every Read/Write after it expires, although the connection is healthy")
 }
